@@ -24,6 +24,7 @@ class Session(object):
     def __init__(self, prog, callbacks=False, seed=1):
         self.vsc = import_vsc()
         self.prog = prog
+        hook().release_all()
         reset_lib_state()
         with quiet():
             self.bt = B.build(self.vsc, prog, callbacks=callbacks)
@@ -224,6 +225,19 @@ class Session(object):
                 raise
             exc = e
         ev["records"] = self.hook.end_call()
+        # map of the library's field models to reference leaves, taken now (later list edits re-create models)
+        lm, keep = {}, []
+        if call is not None:
+            for p_, t_ in call.rand_leaves:
+                try:
+                    fm = self.model_at(inst, list(p_))
+                except Exception:
+                    fm = None
+                if fm is not None:
+                    lm[id(fm)] = (p_, t_)
+                    keep.append(fm)
+        ev["leaf_models"] = lm
+        ev["_keep_models"] = keep
         ev["cb_log"] = list(self.bt.log)
         ev["non_idle"] = non_idle()
         if exc is None:
